@@ -8,6 +8,7 @@ import (
 	"flag"
 	"fmt"
 	"runtime/debug"
+	"strconv"
 	"syscall"
 
 	lz4 "github.com/pierrec/lz4/v4"
@@ -425,4 +426,49 @@ func minInt(a, b int) int {
 		return a
 	}
 	return b
+}
+
+func init() { register("blk-huge", blkHuge) }
+
+// blkHuge decodes blocks whose length codes exceed 2^32 (16.9 MiB of 0xFF length bytes): a match length, a literal
+// length and a match length of exactly 2^32 + 3.  Whatever the destination (sizes given on the command line), the
+// decoded size does not fit: LZ4Block!Decode says "dst too small" / "truncated"; the decoder must return an error.
+func blkHuge(args []string) error {
+	const ff = (1<<32)/255 + 40
+	run := make([]byte, ff)
+	for i := range run {
+		run[i] = 0xFF
+	}
+	blocks := map[string][]byte{
+		// 1 literal, match (offset 1) of length 4 + 15 + 255*ff + 7, then the final literals
+		"match": append(append([]byte{0x1F, 'a', 1, 0}, run...), 7, 0x50, 'v', 'w', 'x', 'y', 'z'),
+		// literal run of length 15 + 255*ff + 7 announced, 100 bytes present
+		"literals": append(append([]byte{0xF0}, run...), append([]byte{7}, make([]byte, 100)...)...),
+	}
+	// match length exactly 2^32 + 3: 4 + 15 + 255*k + r
+	k, r := (1<<32+3-19)/255, (1<<32+3-19)%255
+	blocks["match-2^32+3"] = append(append([]byte{0x1F, 'a', 1, 0}, run[:k]...), byte(r), 0x50, 'v', 'w', 'x', 'y', 'z')
+	out := map[string]rec{}
+	for name, src := range blocks {
+		for _, a := range args {
+			dl, err := strconv.Atoi(a)
+			if err != nil {
+				return err
+			}
+			dst := make([]byte, dl, dl+64)
+			for i := range dst[:cap(dst)] {
+				dst[:cap(dst)][i] = canary
+			}
+			n, derr, p := callDecode(src, dst, nil)
+			intact := true
+			for _, x := range dst[dl:cap(dst)] {
+				if x != canary {
+					intact = false
+				}
+			}
+			out[fmt.Sprintf("%s/%d", name, dl)] = rec{"n": n, "err": derr != nil, "panicked": p, "canary": intact, "srcLen": len(src)}
+		}
+	}
+	printJSON(out)
+	return nil
 }
